@@ -4,6 +4,7 @@ import (
 	"context"
 	"net/url"
 	"sync"
+	"sync/atomic"
 	"time"
 
 	protocol "github.com/longportapp/openapi-protocol/go"
@@ -116,6 +117,8 @@ type client struct {
 	lastPongAt      time.Time
 	reconnectCount  int
 	doReconnectting bool
+	// recovering mirrors doReconnectting for readers that must not queue for the lock
+	recovering int32
 
 	addr            *url.URL
 	dialOptions     *DialOptions
@@ -250,6 +253,12 @@ func (c *client) reconnecting(conn ClientConn) {
 		return
 	}
 
+	// a recovery is already running: do not queue for the write lock behind the requests it makes
+	// (a pending writer would block Close and every Do until those requests time out)
+	if atomic.LoadInt32(&c.recovering) == 1 {
+		return
+	}
+
 	c.Lock()
 	// conn is already replaced, or is being replaced: one loss causes one recovery
 	if c.doReconnectting || c.conn != conn {
@@ -258,6 +267,7 @@ func (c *client) reconnecting(conn ClientConn) {
 	}
 
 	c.doReconnectting = true
+	atomic.StoreInt32(&c.recovering, 1)
 	c.Unlock()
 	verifhook.Point("reconnecting:start")
 
@@ -303,6 +313,7 @@ func (c *client) reconnecting(conn ClientConn) {
 
 	c.Lock()
 	c.doReconnectting = false
+	atomic.StoreInt32(&c.recovering, 0)
 	c.Unlock()
 	verifhook.Point("reconnecting:done")
 }
